@@ -32,7 +32,7 @@ Definition wf_stepb (s : sys) (o : op) : bool :=
       end
   | OJoin _ _ size => size <? 0
   | ONew _ _ _ _ t0 => 0 <=? t0
-  | OOpen _ _ _ _ _ => false
+  | OOpen _ _ _ _ _ _ => false
   | _ => true
   end.
 
@@ -64,7 +64,7 @@ Definition pwfb (ops : list op) : bool := pwfb_from empty_sys ops.
    (Proofs/POpen.v: owf): hash-consistent appends, joins with any bound, any selection *)
 Definition owf_stepb (s : sys) (o : op) : bool :=
   match o with
-  | OOpen _ _ _ _ _ => true
+  | OOpen src _ id _ _ _ => match nth_error (s_logs s) src with Some l => N.eqb id (l_id l) | None => true end
   | _ => pwf_stepb s o
   end.
 
@@ -74,3 +74,23 @@ Fixpoint owfb_from (s : sys) (ops : list op) : bool :=
   | o :: ops' => owf_stepb s o && owfb_from (fst (step s o)) ops'
   end.
 Definition owfb (ops : list op) : bool := owfb_from empty_sys ops.
+
+(* what is demanded of EVERY history the harness runs, also of those that open a log under another id
+   than its entries carry (outside [owf]): content-consistent appends *)
+Definition hashes_consistent_stepb (s : sys) (o : op) : bool :=
+  match o with
+  | OOpen _ _ _ _ _ _ => true
+  | _ => pwf_stepb s o
+  end.
+Fixpoint hashes_consistent_from (s : sys) (ops : list op) : bool :=
+  match ops with
+  | [] => true
+  | o :: ops' => hashes_consistent_stepb s o && hashes_consistent_from (fst (step s o)) ops'
+  end.
+Definition hashes_consistent (ops : list op) : bool := hashes_consistent_from empty_sys ops.
+(* does some step open a log under a foreign id? *)
+Fixpoint foreign_open_from (s : sys) (ops : list op) : bool :=
+  match ops with
+  | [] => false
+  | o :: ops' => negb (owf_stepb s o || negb (hashes_consistent_stepb s o)) || foreign_open_from (fst (step s o)) ops'
+  end.
